@@ -33,8 +33,30 @@ type Case struct {
 	After  string   `json:"after_form,omitempty"` // evaluated once after the redefinition and the last evaluation of main
 	// Unbind: the function is made unbound with fmakunbound right before its redefinition (callers compiled earlier
 	// must reach the new definition all the same)
-	Unbind bool `json:"unbind,omitempty"`
-	Perms  [][]int  `json:"perms"` // the definition orders to run (all of them for <= 4 definitions)
+	Unbind bool    `json:"unbind,omitempty"`
+	Perms  [][]int `json:"perms"` // the definition orders to run (all of them for <= 4 definitions)
+	// Generic: this function is written for slip as a generic function with one method on t for every parameter,
+	// (defmethod name ((a t)) ...) for (defun name (a) ...), in its definition and in its redefinition: the same
+	// function for every caller, reached through dispatch and its cache
+	Generic string `json:"generic,omitempty"`
+}
+
+var defunRx = regexp.MustCompile(`^\(defun (zf\d+) \(([^()&]*)\) `)
+
+// asMethod rewrites the defun of c.Generic as a defmethod whose parameters are all specialized on t.
+func (c Case) asMethod(def string) string {
+	if c.Generic == "" {
+		return def
+	}
+	m := defunRx.FindStringSubmatch(def)
+	if m == nil || m[1] != c.Generic {
+		return def
+	}
+	var ps []string
+	for _, p := range strings.Fields(m[2]) {
+		ps = append(ps, "("+p+" t)")
+	}
+	return "(defmethod " + m[1] + " (" + strings.Join(ps, " ") + ") " + def[len(m[0]):]
 }
 
 var modes = []string{"list-forms", "code-compile", "compile-string", "load-file", "eval-quoted"}
@@ -137,6 +159,11 @@ func genCase(rt *rapid.T) Case {
 			c.NewDef = r.Print(g.DefunIndexed(j, sigs))
 		}
 		c.Unbind = rapid.IntRange(0, 2).Draw(rt, "unbind") == 0
+		if c.After == "" && !c.Unbind && rapid.Bool().Draw(rt, "redef-generic") {
+			c.Generic = sigs[j].Name
+		}
+	} else if rapid.IntRange(0, 3).Draw(rt, "generic") == 0 {
+		c.Generic = sigs[rapid.IntRange(0, nfun-1).Draw(rt, "genericwhich")].Name
 	}
 	all := permutations(len(c.Defs))
 	if len(c.Defs) <= 3 {
@@ -261,7 +288,7 @@ func slipRun(c Case, perm []int, mode string) (out runResult) {
 		defs = append(defs, rn(mc))
 	}
 	for _, i := range perm {
-		defs = append(defs, rn(c.Defs[i]))
+		defs = append(defs, rn(c.asMethod(c.Defs[i])))
 	}
 	if mode == "load-file" {
 		dir := os.Getenv("VERIF_WORK")
@@ -329,7 +356,7 @@ func slipRun(c Case, perm []int, mode string) (out runResult) {
 				}
 			}
 		}
-		if o := evalTop(rn(c.NewDef)); o.Kind != ev.Value {
+		if o := evalTop(rn(c.asMethod(c.NewDef))); o.Kind != ev.Value {
 			out.err = "redefinition: " + o.String()
 			return
 		}
@@ -414,6 +441,9 @@ func run(c Case) *h.Result {
 	res.Classes = append(res.Classes, fmt.Sprintf("defs:%d", len(c.Defs)), fmt.Sprintf("k:%d", c.K))
 	if forward {
 		res.Classes = append(res.Classes, "forward-reference")
+	}
+	if c.Generic != "" {
+		res.Classes = append(res.Classes, "generic-function")
 	}
 	if c.Redef >= 0 {
 		res.Classes = append(res.Classes, "redefinition")
